@@ -97,7 +97,8 @@ def run(ctx, rep, model=True):
             rep.count("names-differing-by-case")
         if i % 4 == 1:
             spec["data"]["plant"] = "nan-fine"; rep.count("nan-stored-in-fine-cells-over-finite-coarse-cells")
-        if i % 4 == 3:
+        if i % 6 == 4:
+            # (multi-level, scattered layouts with two or three fields: boxes that are not the last of their file)
             spec["data"]["plant"] = "fab-bytes"; rep.count("finite-value-whose-bytes-spell-FAB")
         path = place(ctx, spec)
         truth = plotgen.materialize(spec, path)
